@@ -15,7 +15,7 @@ import regex
 import functools
 import schedula as sh
 from . import Token
-from ..errors import TokenError
+from ..errors import TokenError, FormulaError
 from .parenthesis import _update_n_args, _check_operand_end
 
 maxcol = 16384
@@ -389,7 +389,10 @@ class Range(Operand):
             ctx.pop('sheet', None)
             self.attr['is_reference'] = True
 
-        return range2parts(None, **ctx)
+        try:
+            return range2parts(None, **ctx)
+        except sh.DispatcherError:  # E.g., the anchor of a multi-cell range.
+            raise FormulaError(self.source)
 
     def __repr__(self):
         if self.attr.get('is_ranges', False):
